@@ -70,6 +70,40 @@ def with_unread_constants(rng, i):
     return case
 
 
+def with_converter_leftovers(rng, i):
+    """normal-form model carrying what converters leave in a file: a buffer with contents that NO tensor references (somewhere in front of
+    other non-empty buffers) and metadata entries backed by buffers (`min_runtime_version`, a free-form one)"""
+    case = fp.gen_case(rng, i)
+    m = pl.read(case.mb)
+    r = np.random.RandomState(rng.randrange(2 ** 31))
+    if rng.random() < 0.7:
+        dead = s.BufferT()
+        dead.data = np.frombuffer(r.randn(rng.randint(1, 40)).astype(np.float32).tobytes(), dtype=np.uint8)
+        pos = rng.randint(1, max(1, len(m.buffers) - 1))
+        m.buffers.insert(pos, dead)
+        for sg in m.subgraphs:
+            for t in sg.tensors:
+                if t.buffer >= pos:
+                    t.buffer += 1
+        for md in (m.metadata or []):
+            if md.buffer >= pos:
+                md.buffer += 1
+        case.info["tags"].add("unreferenced_buffer")
+    if rng.random() < 0.8:
+        m.metadata = list(m.metadata or [])
+        for name, payload in [(b"min_runtime_version", b"2.17.0" + b"\0" * 10), (b"verif_note", bytes(r.randint(0, 255, size=rng.randint(1, 24)).astype(np.uint8)))][:rng.randint(1, 2)]:
+            b = s.BufferT()
+            b.data = np.frombuffer(payload, dtype=np.uint8)
+            m.buffers.append(b)
+            md = s.MetadataT()
+            md.name, md.buffer = name, len(m.buffers) - 1
+            m.metadata.append(md)
+        case.info["tags"].add("metadata_buffers")
+    from tensorflow.lite.tools import flatbuffer_utils
+    case.mb = bytes(flatbuffer_utils.convert_object_to_bytearray(m))
+    return case
+
+
 def run(ctx):
     ctx.rule = ("quantized models produced from generated models x recipes (plus models carrying a zero-length constant in front of the "
                 "others), pushed through the large-model path by lowering its threshold with the verification hook; raw flatbuffer "
@@ -97,7 +131,8 @@ def explore_cases(ctx, drv, interp):
     for i in range(n):
         if ctx.left() < 25:
             break
-        case = with_empty_constant(rng, i) if i % 4 == 1 else (with_unread_constants(rng, i) if i % 4 == 3 else fp.gen_case(rng, i))
+        case = with_empty_constant(rng, i) if i % 4 == 1 else (with_unread_constants(rng, i) if i % 4 == 3 else
+                                                                (with_converter_leftovers(rng, i) if i % 4 == 2 else fp.gen_case(rng, i)))
         if i % 5 == 3:
             # the INPUT model already keeps its constants outside the flatbuffer (written by the check's own two-pass writer)
             case.mb = pl.to_external_form(case.mb)
